@@ -248,9 +248,78 @@ def r17a(model, ctx):
     ctx.check(ok, R, "FFSynchronizer.__init__", "parameters stored unchanged; stages validated", "FFSynchronizer.__init__ must "
               "validate stages and store o_domain, stages, init (default 0), reset_less unchanged", f"{CDC}:{fi.lineno}")
     fc = model.func(f"{CDC}::_check_stages")
-    t = unparse(fc)
-    ok = "not isinstance(stages, int) or stages < 1" in t and "if stages < 2" in t and t.count("raise") == 2
+    ok = _stages_predicate(fc)
     ctx.check(ok, R, "_check_stages", "stages must be an int >= 2", "_check_stages must reject non-integers and stages < 2", f"{CDC}:{fc.lineno}")
+
+
+def _stages_predicate(fc):
+    """_check_stages raises exactly when `stages` is not an int or is < 2: the function's paths are evaluated over the finite
+    abstraction (ints 0..3, non-ints 0.5..3.5) — every condition has to be built from isinstance(stages, int) and comparisons of
+    `stages` with integer literals, anything else is not decided here."""
+    from ..engine.symx import run_paths
+    arg = fc.args.args[0].arg
+    paths = run_paths(fc.body)
+    need(paths, "_check_stages has no paths")
+
+    def ev(e, isint, v):
+        if isinstance(e, ast.BoolOp):
+            vals = [ev(x, isint, v) for x in e.values]
+            return all(vals) if isinstance(e.op, ast.And) else any(vals)
+        if isinstance(e, ast.UnaryOp) and isinstance(e.op, ast.Not):
+            return not ev(e.operand, isint, v)
+        if isinstance(e, ast.Call) and unparse(e) == f"isinstance({arg}, int)":
+            return isint
+        if isinstance(e, ast.Compare):
+            terms = [e.left, *e.comparators]
+            xs = []
+            for t in terms:
+                if isinstance(t, ast.Name) and t.id == arg:
+                    xs.append(v)
+                else:
+                    c = const_int(t)
+                    need(c is not None, f"_check_stages condition `{unparse(e)}` not recognised")
+                    xs.append(c)
+            import operator as _o
+            ops = {ast.Lt: _o.lt, ast.LtE: _o.le, ast.Gt: _o.gt, ast.GtE: _o.ge, ast.Eq: _o.eq, ast.NotEq: _o.ne}
+            out = True
+            for a, op, b in zip(xs, e.ops, xs[1:]):
+                need(type(op) in ops, f"_check_stages condition `{unparse(e)}` not recognised")
+                out = out and ops[type(op)](a, b)
+            return out
+        if isinstance(e, ast.Constant) and isinstance(e.value, bool):
+            return e.value
+        need(False, f"_check_stages condition `{unparse(e)}` not recognised")
+
+    # non-integers are represented by floats between the integers: a comparison does not reject them by itself (a value
+    # that cannot be compared at all raises TypeError there, which is a rejection)
+    for isint in (True, False):
+        for v in ((0, 1, 2, 3) if isint else (0.5, 1.5, 2.5, 3.5)):
+            taken = None
+            for p in paths:
+                if all(_short(ev, c, isint, v) == pol for c, pol in p.conds):
+                    taken = p
+                    break
+            need(taken is not None, "_check_stages: no path for some input")
+            raises = taken.how == "raise"
+            if raises != ((not isint) or v < 2):
+                return False
+    return True
+
+
+def _short(ev, c, isint, v):
+    """conditions are evaluated with Python's short-circuit order, so `not isinstance(..) or stages < 1` never compares a
+    non-integer"""
+    if isinstance(c, ast.BoolOp):
+        for x in c.values:
+            r = _short(ev, x, isint, v)
+            if isinstance(c.op, ast.And) and not r:
+                return False
+            if isinstance(c.op, ast.Or) and r:
+                return True
+        return isinstance(c.op, ast.And)
+    if isinstance(c, ast.UnaryOp) and isinstance(c.op, ast.Not):
+        return not _short(ev, c.operand, isint, v)
+    return ev(c, isint, v)
 
 
 def r17b(model, ctx):
@@ -351,7 +420,7 @@ def r17c(model, ctx):
     ok = len(a) == 1 and a[0].domain == "comb" and unparse(a[0].rhs) in ("o_toggle ^ r_toggle", "r_toggle ^ o_toggle")
     ctx.check(ok, R, "PulseSynchronizer:o", "edge detect: o_toggle ^ r_toggle", f"o must be o_toggle ^ r_toggle; found {a}", f"{CDC}:{fn.lineno}")
     s = [x for x in em.submodules if x.name == "ff_sync"]
-    ok = len(s) == 1 and unparse(s[0].call) == "FFSynchronizer(i_toggle, o_toggle, o_domain=self._o_domain, stages=self._stages)"
+    ok = len(s) == 1 and unparse(em.expand(s[0].call)) == "FFSynchronizer(i_toggle, o_toggle, o_domain=self._o_domain, stages=self._stages)"
     ctx.check(ok, R, "PulseSynchronizer:ff_sync", "toggle resynchronised into the output domain with `stages` stages",
               f"the toggle must cross through FFSynchronizer(i_toggle, o_toggle, o_domain=self._o_domain, stages=self._stages); found "
               f"{unparse(s[0].call) if s else '-'}", f"{CDC}:{fn.lineno}")
